@@ -52,6 +52,15 @@ func (f mField) schema() map[string]any {
 		s = map[string]any{"type": "object", "additionalProperties": map[string]any{"type": "integer"}}
 	case "ref":
 		return map[string]any{"$ref": "#/components/schemas/Leaf"}
+	case "arrobj": // array of inline objects that allow (typed) additional members
+		s = map[string]any{"type": "array", "items": map[string]any{"type": "object", "required": []string{"name"}, "properties": map[string]any{"name": map[string]any{"type": "string"}},
+			"additionalProperties": map[string]any{"type": "integer", "format": "int64"}}}
+	case "inlobj": // inline object that allows additional members
+		s = map[string]any{"type": "object", "required": []string{"name"}, "properties": map[string]any{"name": map[string]any{"type": "string"}}, "additionalProperties": map[string]any{"type": "string"}}
+	case "arrref":
+		s = map[string]any{"type": "array", "items": map[string]any{"$ref": "#/components/schemas/Leaf"}}
+	case "mapobj": // map of inline objects that allow additional members
+		s = map[string]any{"type": "object", "additionalProperties": map[string]any{"type": "object", "properties": map[string]any{"name": map[string]any{"type": "string"}}, "additionalProperties": map[string]any{"type": "integer"}}}
 	}
 	if f.Nullable {
 		s["nullable"] = true
@@ -128,6 +137,41 @@ func genMemberValue(rng *rand.Rand, kind string) any {
 		return m
 	case "ref":
 		return map[string]any{"x": mStrings[rng.Intn(len(mStrings))], "y": rng.Intn(10)}
+	case "arrobj":
+		l := []any{}
+		for i := 0; i < rng.Intn(3); i++ {
+			e := map[string]any{"name": mStrings[rng.Intn(len(mStrings))]}
+			for j := 0; j < rng.Intn(3); j++ {
+				e[[]string{"stock", "sold", "ünï"}[j]] = []int64{0, -4, 9007199254740993, math.MaxInt64}[rng.Intn(4)]
+			}
+			l = append(l, e)
+		}
+		return l
+	case "inlobj":
+		e := map[string]any{"name": mStrings[rng.Intn(len(mStrings))]}
+		for j := 0; j < rng.Intn(3); j++ {
+			e[[]string{"extra", "x-1"}[j]] = mStrings[rng.Intn(len(mStrings))]
+		}
+		return e
+	case "arrref":
+		l := []any{}
+		for i := 0; i < rng.Intn(3); i++ {
+			l = append(l, map[string]any{"x": mStrings[rng.Intn(len(mStrings))], "y": rng.Intn(10)})
+		}
+		return l
+	case "mapobj":
+		m := map[string]any{}
+		for i := 0; i < rng.Intn(3); i++ {
+			e := map[string]any{}
+			if rng.Intn(2) == 0 {
+				e["name"] = mStrings[rng.Intn(len(mStrings))]
+			}
+			if rng.Intn(2) == 0 {
+				e["n"] = rng.Intn(100)
+			}
+			m[fmt.Sprintf("k%d", i)] = e
+		}
+		return m
 	}
 	return nil
 }
@@ -173,6 +217,12 @@ func zeroOf(kind string) any {
 		return []string{}
 	case "map":
 		return map[string]int{}
+	case "arrobj", "arrref":
+		return []any{}
+	case "inlobj":
+		return map[string]any{"name": ""}
+	case "mapobj":
+		return map[string]any{}
 	}
 	return nil
 }
@@ -260,7 +310,7 @@ func runC07(r *Report, rng *rand.Rand, thorough bool) {
 	if thorough {
 		nSchemas, nInst = 300, 40
 	}
-	kinds := []string{"string", "int", "int64", "double", "bool", "date", "arr", "map", "ref"}
+	kinds := []string{"string", "int", "int64", "double", "bool", "date", "arr", "map", "ref", "arrobj", "inlobj", "arrref", "mapobj"}
 	var schemas []mSchema
 	for i := 0; i < nSchemas; i++ {
 		s := mSchema{Name: fmt.Sprintf("M%d", i), Addl: []string{"", "", "any", "string", "int", "array", "object", "map"}[rng.Intn(8)]}
@@ -532,5 +582,5 @@ func runC07(r *Report, rng *rand.Rand, thorough bool) {
 	}
 	ccases.WriteTo(r)
 	// ---- number without format is float32 (documented): a value needing more precision is narrowed
-	r.Rule = "object schemas from a grammar (1-5 members: required/optional x nullable x {string, int, int64, double, bool, date, array, map, referenced object}, some readOnly/writeOnly; additionalProperties absent / true / string / integer / array of integers / object with optional members / map of strings, with 0-3 additional members) x {default, nullable-type, disable-required-readonly-as-pointer}, plus four merged (allOf) types whose members differ in what they allow for unknown members and three union types (oneOf / anyOf / oneOf with an own property) with 64-bit extremes inside the stored member, generated and compiled; valid instances from a schema-directed generator (one instance per schema with zero values in every required member, explicit nulls, absent optionals, empty arrays/maps, 64-bit extremes, float64 edge values, escaped and non-ASCII strings, extra members of the additional type) unmarshalled into the generated type and marshalled again; semantic JSON equality modulo the documented exception (oracle) and the model's re-encoded object (Coq); non-trivial = instance with at least two members"
+	r.Rule = "object schemas from a grammar (1-5 members: required/optional x nullable x {string, int, int64, double, bool, date, array, map, referenced object, array of inline objects with additional members, inline object with additional members, array of references, map of inline objects with additional members}, some readOnly/writeOnly; additionalProperties absent / true / string / integer / array of integers / object with optional members / map of strings, with 0-3 additional members) x {default, nullable-type, disable-required-readonly-as-pointer}, plus four merged (allOf) types whose members differ in what they allow for unknown members and three union types (oneOf / anyOf / oneOf with an own property) with 64-bit extremes inside the stored member, generated and compiled; valid instances from a schema-directed generator (one instance per schema with zero values in every required member, explicit nulls, absent optionals, empty arrays/maps, 64-bit extremes, float64 edge values, escaped and non-ASCII strings, extra members of the additional type) unmarshalled into the generated type and marshalled again; semantic JSON equality modulo the documented exception (oracle) and the model's re-encoded object (Coq); non-trivial = instance with at least two members"
 }
